@@ -205,9 +205,10 @@ fn run(c: &mut Ctx) {
             for u in [false, true] {
                 let mut lines = Vec::new();
                 let mut expect = Vec::new();
-                for (i, (chars, pos, ch, tc, ca, bds, _)) in chunk {
+                for (i, (chars, pos, ch, tc, ca, bds, same)) in chunk {
                     let a1 = 0x100000 | *i as u32;
-                    let a2 = 0x200000 | *i as u32;
+                    // half of the pairs are two consecutive frames of the *same* aircraft: the second string must replace the first
+                    let a2 = if *same { a1 } else { 0x200000 | *i as u32 };
                     let mut other = *chars;
                     other[*pos] = if other[*pos] == *ch { if *ch == 1 { 2 } else { 1 } } else { *ch };
                     lines.push(bits::df11(a1, 5, 0).hex());
@@ -219,7 +220,9 @@ fn run(c: &mut Ctx) {
                         lines.push(bits::es(17, 5, a1, bits::me_ident(*tc, *ca, *chars)).hex());
                         lines.push(bits::es(17, 5, a2, bits::me_ident(*tc, *ca, other)).hex());
                     }
-                    expect.push((a1, callsign(chars)));
+                    if !*same {
+                        expect.push((a1, callsign(chars)));
+                    }
                     expect.push((a2, callsign(&other)));
                 }
                 let t = run::new_table();
@@ -229,11 +232,11 @@ fn run(c: &mut Ctx) {
                 }
                 let snap = run::snapshot(&t);
                 c.eval(expect.len() as u64);
-                c.class_n("one_character_neighbour_pairs", (expect.len() / 2) as u64);
+                c.class_n("one_character_neighbour_pairs", chunk.len() as u64);
                 for (a, want) in &expect {
                     let got = snap.get(a).and_then(|r| r.ais.clone()).unwrap_or_default();
                     if &got != want && !c.failed() {
-                        c.fail(format!("callsign of {:06X} is {:?}, expected {:?} (its frame arrived directly after a frame of another aircraft whose callsign differs in one character)", a, got, want), "c07:adjacent", json!({"kind":"lines","u":u,"lines":lines,"addr":a,"want":want}));
+                        c.fail(format!("callsign of {:06X} is {:?}, expected {:?} (its frame arrived directly after a frame - of this or of another aircraft - whose callsign differs in one character)", a, got, want), "c07:adjacent", json!({"kind":"lines","u":u,"lines":lines,"addr":a,"want":want}));
                     }
                 }
             }
